@@ -218,7 +218,9 @@ pub(crate) fn spec_format_spec(input: &str) -> Option<(&str, FormatSpec<'_>)> {
     }
     let mut zero_padding = None;
     if let Some(r) = eat(cur, '0') {
-        if eat(r, '$').is_none() {
+        // `0` directly followed by `$` is the width parameter `0$`, not the flag. (A `0` at the very end of
+        // the input is not a flag either: a placeholder always continues with at least `}`.)
+        if matches!(first(r), Some((c, _)) if c != '$') {
             zero_padding = Some(ZeroPadding);
             cur = r;
         }
